@@ -114,11 +114,13 @@ class BaseSDESolver(metaclass=better_abc.ABCMeta):
         for out_t in ts[1:]:
             while curr_t < out_t:
                 next_t = min(curr_t + step_size, ts[-1])
-                if self.adaptive:
+                midpoint_t = 0.5 * (curr_t + next_t)
+                # A step too short to be halved in floating point (e.g. the rounding remainder left just before ts[-1]) is
+                # taken as a single plain step: a zero-length half step is not meaningful for every solver (1 / dt).
+                if self.adaptive and curr_t < midpoint_t < next_t:
                     # Take 1 full step.
                     next_y_full, _ = self.step(curr_t, next_t, curr_y, curr_extra)
                     # Take 2 half steps.
-                    midpoint_t = 0.5 * (curr_t + next_t)
                     midpoint_y, midpoint_extra = self.step(curr_t, midpoint_t, curr_y, curr_extra)
                     next_y, next_extra = self.step(midpoint_t, next_t, midpoint_y, midpoint_extra)
 
